@@ -255,7 +255,7 @@ func (self Node) List(opts *Options) ([]interface{}, error) {
 	if it.Err != nil {
 		return nil, it.Err
 	}
-	ret := make([]interface{}, 0, it.Size())
+	ret := make([]interface{}, 0, it.capSize())
 	for it.HasNext() {
 		s, e := it.Next(opts.UseNativeSkip)
 		if it.Err != nil {
@@ -286,7 +286,7 @@ func (self Node) StrMap(opts *Options) (map[string]interface{}, error) {
 	if self.kt != thrift.STRING {
 		return nil, errNode(meta.ErrUnsupportedType, "key type must by STRING", nil)
 	}
-	ret := make(map[string]interface{}, it.Size())
+	ret := make(map[string]interface{}, it.capSize())
 	for it.HasNext() {
 		_, ks, s, e := it.NextStr(opts.UseNativeSkip)
 		if it.Err != nil {
@@ -317,7 +317,7 @@ func (self Node) IntMap(opts *Options) (map[int]interface{}, error) {
 	if it.Err != nil {
 		return nil, it.Err
 	}
-	ret := make(map[int]interface{}, it.Size())
+	ret := make(map[int]interface{}, it.capSize())
 	for it.HasNext() {
 		_, ks, s, e := it.NextInt(opts.UseNativeSkip)
 		if it.Err != nil {
@@ -350,7 +350,7 @@ func (self Node) InterfaceMap(opts *Options) (map[interface{}]interface{}, error
 	if it.Err != nil {
 		return nil, it.Err
 	}
-	ret := make(map[interface{}]interface{}, it.Size())
+	ret := make(map[interface{}]interface{}, it.capSize())
 	for it.HasNext() {
 		_, ks, s, e := it.NextBin(opts.UseNativeSkip)
 		if it.Err != nil {
